@@ -781,7 +781,6 @@ def size_of(v):
 # ------------------------------------------------------------------ the check
 CLASSES = [("class_array", "array-rendered-as-list"),
            ("class_imports", "import-name-collision"),
-           ("class_raw_qname", "qname-text-unescaped"),
            ("class_init", "init-false-field-not-default"),
            ("class_std", "stdlib-datetime-unqualified")]
 
